@@ -526,7 +526,8 @@ def rule_H1(prog, fixture=False):
         if not written and not any(_write_sources(f, flow, sname) for sname in scalars):
             continue
         n_proc += 1
-        h1_props = ["C06"] + (["C08"] if "lib/resample/" in rel else []) + (["C20"] if ("/audio/" in rel or rel.endswith("agc.cpp")) else [])
+        h1_props = ["C06"] + (["C08"] if "lib/resample/" in rel else []) + (["C20"] if ("/audio/" in rel or rel.endswith("agc.cpp")) else []) \
+            + (["C14"] if (rel.endswith("dsplib/delay.h") or rel.endswith("lib/hilbert.cpp") or rel.endswith("dsplib/tuner.h")) else [])
         in_names = {p["n"] for p in inputs}
         for (fld, ws) in written:
             key = "H1:%s:%s" % (fkey(f), fld)
@@ -568,6 +569,41 @@ def rule_H1(prog, fixture=False):
                         "%s is set from %s alone (%s): the position in the stream restarts with every call, so the result depends on "
                         "how the stream is framed" % (fld["name"], ", ".join(sorted({"%s.%s" % (a[1], a[2]) for a in deps if a[0] == "parm"})) or "constants",
                                                       ws[-1][0].text()), func=f.name, extra={"props": h1_props})
+        # a ring position and the line it indexes change together: where process() addresses an array member through an integer
+        # position member ( _buffer[_pos] ), every other write of that array either goes through the position as well or sits on
+        # a path that also sets the position (a bulk path that rewrites the line in time order has to reset / rotate by it)
+        for parr in arrays:
+            for pfld in [x for x in cj["fields"] if not x["const"] and re.match(r"^(unsigned |signed )?(int|long|short|size_t|unsigned long|unsigned int)$", x["ctype"])]:
+                pname = pfld["name"]
+                pw = [wn for (wn, _) in _write_sources(f, flow, pname)]
+                if not pw:
+                    continue
+
+                def via_position(node):
+                    for x in node.walk():
+                        if x.k == "CXXOperatorCallExpr" and x.op in ("[]", "()") and len(x.c) == 3:
+                            b0 = x.c[1].strip_all()
+                            if b0.k == "MemberExpr" and b0.decl and b0.decl.get("n") == parr and any(a[0] == "this" and a[1] == pname for a in flow.deps(x.c[2])):
+                                return True
+                    return False
+                if not any(via_position(x) for x in [f.body()] if x is not None):
+                    continue
+                f.blocks
+                for (wn, _) in _write_sources(f, flow, parr):
+                    lhs_ok = via_position(wn)
+                    if lhs_ok:
+                        continue
+                    paired = any(f.precedes(q, wn) or f.precedes(wn, q) for q in pw)
+                    key = "H1:%s:%s:position-%s" % (fkey(f), parr, pname)
+                    if not paired:
+                        res.add(key, VIOLATED, "%s:%d" % (rel, wn.line), "%s keeps %s and %s consistent" % (f.short, parr, pname),
+                                "`%s` rewrites %s without going through the position %s and on a path that does not set %s either, while "
+                                "other paths address %s[%s]: after this path the position no longer says where the oldest sample is, and "
+                                "the next frame is read out rotated" % (wn.text()[:70], parr, pname, pname, parr, pname), func=f.name, extra={"props": h1_props})
+                        break
+                else:
+                    res.add("H1:%s:%s:position-%s" % (fkey(f), parr, pname), DISCHARGED, "%s:%d" % (rel, f.line), "%s keeps %s and %s consistent" % (f.short, parr, pname),
+                            "every write of %s goes through %s or is paired with a write of it" % (parr, pname), func=f.name, extra={"props": h1_props})
         # no data-dependent shortcut around the state update: a return that is reached only for certain sample values, on a
         # path that has not written the recursive state, lets the state miss those samples
         all_rets = [n for n in f.walk() if n.k == "ReturnStmt" and not any(a.k == "LambdaExpr" for a in n.ancestors())]
